@@ -325,26 +325,94 @@ def gen_union(rng, cat):
 def gen_cte(rng, cat):
     feats = ['cte']
     a, b = pick_tables(rng, 2, cat)
-    inner, _ = single_select(rng, cat, a, feats, cols=COLS, where_p=0.4, allow_sub=False)
-    if rng.random() < 0.5:
+    # the CTE name may collide with the name of a real table: of the joined table in ANOTHER integration, of its own
+    # source table, or of an unrelated table (the qualified reference must still mean the real table)
+    r0 = rng.random()
+    name, icat = 'w', cat
+    if r0 < 0.3:
+        name, icat = b[1], 'names'
+        feats.append('cte-name=joined-table')
+    elif r0 < 0.42:
+        name, icat = a[1], 'names'
+        feats.append('cte-name=source-table')
+    elif r0 < 0.5:
+        name, icat = rng.choice([t for t in TABLES if t not in (a, b)])[1], 'names'
+        feats.append('cte-name=other-table')
+    inner, _ = single_select(rng, icat, a, feats, cols=COLS, where_p=0.4, allow_sub=False)
+    if rng.random() < 0.4 and 'cte-name=joined-table' not in feats:
         w = ''
         if rng.random() < 0.5:
-            w = ' WHERE ' + tree(rng, ['w.'], feats, 1, allow_sub=False)
+            w = ' WHERE ' + tree(rng, [name + '.'], feats, 1, allow_sub=False)
         sel = rng.sample(COLS, 2)
-        body = 'WITH w AS (%s) SELECT %s FROM w%s' % (inner, ', '.join('w.' + c for c in sel), w)
-        names = ['w.' + c for c in sel]
+        body = 'WITH %s AS (%s) SELECT %s FROM %s%s' % (name, inner, ', '.join(name + '.' + c for c in sel), name, w)
+        names = [name + '.' + c for c in sel]
     else:
         feats.append('cte-join')
         al = rng.choice(ALIASES)
         jk = rng.choice(JOIN_KINDS)
         w = ''
         if rng.random() < 0.5:
-            w = ' WHERE ' + tree(rng, ['w.', al + '.'], feats, 1, allow_sub=False)
-        body = 'WITH w AS (%s) SELECT w.x, %s.y FROM w %s %s ON w.id = %s.id%s' % (
-            inner, al, jk, table_ref(rng, cat, b, al), al, w)
-        names = ['w.x', al + '.y']
+            w = ' WHERE ' + tree(rng, [name + '.', al + '.'], feats, 1, allow_sub=False)
+        ref = '%s.%s AS %s' % (b[0], b[1], al) if name != 'w' else table_ref(rng, cat, b, al)
+        if rng.random() < 0.5:
+            body = 'WITH %s AS (%s) SELECT %s.x, %s.y FROM %s %s %s ON %s.id = %s.id%s' % (
+                name, inner, name, al, name, jk, ref, name, al, w)
+        else:
+            body = 'WITH %s AS (%s) SELECT %s.x, %s.y FROM %s %s %s ON %s.id = %s.id%s' % (
+                name, inner, name, al, ref, jk, name, name, al, w)
+        names = [name + '.x', al + '.y']
     op, osql, lim, off = order_limit(rng, len(names), names, feats, 0.3, 0.3)
     return Q('cte', cat, body, op, osql, lim, off, [a, b], feats)
+
+
+def gen_orderlimit(rng, cat):
+    """LEFT-join chains with a multi-key ORDER BY (keys from different tables, ASC/DESC mixes) and LIMIT; meant to be run
+    on contents with ties in the leading key (feature 'ties')"""
+    feats = ['ties', 'order', 'limit']
+    n = 2 if rng.random() < 0.7 else 3
+    ts = pick_tables(rng, n, cat)
+    als = rng.sample(ALIASES, n)
+    quals = [a + '.' for a in als]
+    frm = table_ref(rng, cat, ts[0], als[0])
+    for k in range(1, n):
+        jk = rng.choice(['LEFT JOIN', 'LEFT JOIN', 'LEFT JOIN', 'LEFT OUTER JOIN', 'JOIN'])
+        feats.append('join:' + jk)
+        j = rng.randrange(k)
+        frm += ' %s %s ON %s%s = %s%s' % (jk, table_ref(rng, cat, ts[k], als[k]), quals[k], rng.choice(['id', 'id', 'x']),
+                                        quals[j], rng.choice(['id', 'id', 'x']))
+    allcols = [(q, c) for q in quals for c in COLS]
+    if rng.random() < 0.5:
+        tg, names = ['*'], ['%s%s' % qc for qc in allcols]
+    else:
+        sel = rng.sample(allcols, rng.choice([2, 3, 4]))
+        tg = names = ['%s%s' % qc for qc in sel]
+    # leading key(s) from the first table, then a key of another table
+    first = [i for i, nm in enumerate(names) if nm.startswith(quals[0])]
+    other = [i for i, nm in enumerate(names) if not nm.startswith(quals[0])]
+    if not first or not other:
+        tg, names = ['*'], ['%s%s' % qc for qc in allcols]
+        first = [i for i, nm in enumerate(names) if nm.startswith(quals[0])]
+        other = [i for i, nm in enumerate(names) if not nm.startswith(quals[0])]
+    pos = [rng.choice(first)]
+    if rng.random() < 0.3:
+        pos.append(rng.choice(first))
+    pos.append(rng.choice(other))
+    if rng.random() < 0.3:
+        pos.append(rng.choice(first + other))
+    seen, order_pos, items = set(), [], []
+    for i in pos:
+        if i in seen:
+            continue
+        seen.add(i)
+        order_pos.append(i)
+        items.append(names[i] + rng.choice(['', '', ' DESC', ' ASC']))
+    where = ''
+    if rng.random() < 0.2:
+        where = ' WHERE %s%s %s %d' % (quals[0], rng.choice(COLS), rng.choice(CMP), rng.randrange(3))
+    body = 'SELECT %s FROM %s%s' % (', '.join(tg), frm, where)
+    lim = rng.choice([1, 1, 2, 2, 3])
+    off = rng.choice([None, None, None, 1])
+    return Q('orderlimit', cat, body, order_pos, ' ORDER BY ' + ', '.join(items), lim, off, ts, feats)
 
 
 def gen_nested(rng, cat):
@@ -436,6 +504,8 @@ def gen_api(rng, cat):
 def gen_query(rng):
     r = rng.random()
     cat = rng.choice(['names', 'names', 'default', 'project', 'api3'])
+    if r < 0.07:
+        return gen_orderlimit(rng, cat)
     if r < 0.55:
         return gen_join(rng, cat)
     if r < 0.68:
@@ -464,6 +534,16 @@ def gen_contents(rng, tables, maxrows):
                 continue
             rows.append((rng.choice([0, 1, 1, 2, None]), rng.choice(VALUES), rng.choice(VALUES)))
         out[it] = rows
+    return out
+
+
+def gen_contents_ties(rng, tables, maxrows):
+    """contents with many ties: few distinct values per column, tables mostly full, ids mostly matching"""
+    out = {}
+    for it in tables:
+        n = maxrows if rng.random() < 0.7 else rng.randrange(maxrows + 1)
+        vx = rng.choice([[0], [1], [0, 1], [0, 0, 1], [None, 1]])
+        out[it] = [(rng.choice([1, 1, 2]), rng.choice(vx), rng.choice([0, 1, 2, None])) for _ in range(n)]
     return out
 
 
